@@ -129,6 +129,10 @@ func applyOps(t *Target, valid []byte, ops []MutOp) (mut []byte, what string, ki
 func (DecoderEngine) Execute(sc *core.Scenario, st *core.Stats) (*core.Violation, bool) {
 	SetChainContext()
 	c := GetCorpus()
+	if c.Broken != nil {
+		v := *c.Broken
+		return &v, true
+	}
 	env := c.NewEnv()
 	defer env.Close()
 	m := NewMeter()
